@@ -33,6 +33,9 @@ def arrays_of(obj, seen=None, path='', out=None):
         for j, x in enumerate(obj):
             arrays_of(x, seen, '%s[%d]' % (path, j), out)
         return out
+    if hasattr(obj, 'toarray') and isinstance(getattr(obj, 'data', None), T.real_np.ndarray):
+        out.append((path + '.data', obj.data))      # scipy sparse result: its value storage may alias an input
+        return out
     if isinstance(obj, dict):
         for k, x in obj.items():
             arrays_of(x, seen, '%s[%r]' % (path, k), out)
